@@ -138,14 +138,21 @@ Proof.
 Qed.
 
 (* ------------------------------------------------------------------ structs *)
+Lemma output_struct_ok nm lt outs :
+  struct_fields_ok outs {| gs_name := nm; gs_lifetime := lt; gs_fields := map (gen_output_field lt) outs |} = true.
+Proof.
+  unfold struct_fields_ok. cbn [gs_fields]. apply map_wire. intros x _. apply wire_gen_output_field.
+Qed.
+
 Lemma output_structs_hold ms :
   all2 struct_fields_ok (map m_outputs (methods_with_outputs ms)) (flat_map gen_output_struct ms) = true.
 Proof.
   induction ms as [|m ms IH]; [reflexivity|].
-  cbn [methods_with_outputs filter flat_map]. unfold gen_output_struct at 1.
-  destruct (m_outputs m) as [|o os] eqn:O; [exact IH|].
-  cbn [map app all2]. fold (methods_with_outputs ms). rewrite IH, andb_true_r.
-  unfold struct_fields_ok. cbn [gs_fields]. apply map_wire. intros x _. apply wire_gen_output_field.
+  unfold methods_with_outputs in *. cbn [filter flat_map]. unfold gen_output_struct at 1.
+  destruct (m_outputs m) as [|o os] eqn:O.
+  - exact IH.
+  - cbn [app]. cbn [map all2]. rewrite O, IH, andb_true_r.
+    apply (output_struct_ok _ (outputs_need_lifetime m) (o :: os)).
 Qed.
 
 Lemma custom_structs_hold cs :
